@@ -116,6 +116,52 @@ def prop_modules(prop):
     return [prop] + extra
 
 
+def datum_relevant(prop, failures_text):
+    """does a datum the translator could not settle matter to this property?  It does if the arbitration table names the
+    property among the datum's users, or if the datum's name occurs in a file the property's statement files (transitively)
+    require -- the model files its theorems are about.  (A datum the property does not depend on keeps its baseline value
+    in coq/gen; this property's model and proofs are unaffected by it.)"""
+    import arbitrate
+    data = re.findall(r"(Gen\w+\.v)\.(\w+)", failures_text)
+    if not data:
+        return True
+    # transitive Require closure of the property's statement files
+    def reqs(path):
+        try:
+            text = strip_coq_comments(open(path, encoding="utf-8").read())
+        except OSError:
+            return []
+        out = []
+        for lib, mods in re.findall(r"From\s+(MsiModel|MsiGen|MsiProps)\s+Require\s+(?:Import\s+|Export\s+)?([^.]*(?:\.[A-Za-z][^.]*)*)\.", text):
+            d = {"MsiModel": "theories", "MsiGen": "gen", "MsiProps": "props"}[lib]
+            for m in mods.split():
+                out.append(os.path.join(COQ, d, m.split(".")[-1] + ".v"))
+        return out
+    seen, todo = set(), [os.path.join(COQ, "props", m + ".v") for m in prop_modules(prop)]
+    todo += [os.path.join(COQ, "theories", "Dispatch.v"), os.path.join(COQ, "theories", "PackageCmd.v")]     # the executable model
+    while todo:
+        f = todo.pop()
+        if f in seen:
+            continue
+        seen.add(f)
+        todo.extend(reqs(f))
+    texts = {}
+    for fname, name in data:
+        if prop in arbitrate.policy_for(fname, name)[1]:
+            return True
+        for f in seen:
+            if os.path.basename(f).startswith("Gen"):
+                continue
+            if f not in texts:
+                try:
+                    texts[f] = open(f, encoding="utf-8").read()
+                except OSError:
+                    texts[f] = ""
+            if re.search(r"\b%s\b" % re.escape(name), texts[f]):
+                return True
+    return False
+
+
 def theorems_of(prop):
     names = []
     for m in prop_modules(prop):
@@ -461,7 +507,12 @@ def main():
     ok, out = translate()
     log(out)
     if not ok:
-        broken.append(("translator", out))
+        fails = "\n".join(l for l in out.split("\n") if l.startswith("translate: FAILED"))
+        if datum_relevant(prop, fails):
+            broken.append(("translator", out))
+        else:
+            notes.append("translator: a datum that neither this property's theorems nor its model use could not be settled; its baseline value "
+                         "stays in coq/gen (%s)" % fails[:300])
     notes.extend(l for l in out.split("\n") if l.startswith("translate: note:"))
     try:
         import arbitrate
